@@ -19,8 +19,9 @@ D1=$(run_demo); tail -3 /tmp/demo_$$.out > /tmp/demo_mut_$$.txt
 T1=$(run_tests)
 git -C "$WT" checkout -- . 
 echo "demo clean exit=$D0 mutated exit=$D1 ; tests with mutation: $T1"
-# checks against /repo
+# checks against /repo (the evidence directory is saved and restored: committed evidence must come from the clean tree)
 cd /verif
+rm -rf /tmp/evidence_backup_$$ && cp -r /verif/evidence /tmp/evidence_backup_$$
 if ! git -C /repo apply --check "$MD/patch.diff" 2>/dev/null; then echo "RESULT $SID patch-does-not-apply-to-repo"; exit 8; fi
 git -C /repo apply "$MD/patch.diff"
 DET=""
@@ -33,6 +34,7 @@ for c in $CHECKS; do
   tail -1 /tmp/chk_$$.out | cut -c1-200
 done
 git -C /repo checkout -- .
+rm -rf /verif/evidence && mv /tmp/evidence_backup_$$ /verif/evidence
 if [ -n "$(git -C /repo status --short)" ]; then echo "WARNING: /repo not clean"; git -C /repo status --short; fi
 mkdir -p /verif/seeded/$SID
 cp "$MD/patch.diff" "$MD/demo.py" /verif/seeded/$SID/
